@@ -269,6 +269,7 @@ def noteAct (x : Expect) : Action → Expect
   | .send c t => { x with sends := x.sends ++ [(c, t)] }
   | .cin t => { x with sends := x.sends ++ [(0, t)] }
   | .close c => { x with closed := c :: x.closed }
+  | .reset c => { x with closed := c :: x.closed }
   | _ => x
 
 def isTickAct : Action → Bool
@@ -300,6 +301,7 @@ def WFHist (h : List (List Action)) : Bool :=
   acts.all (fun a => match a with
     | .send c _ => conns.contains c
     | .close c => conns.contains c
+    | .reset c => conns.contains c
     | _ => true)
 
 /-- **the settling assumption, decidable:** the history ends as the generator's histories do - at least
